@@ -14,9 +14,14 @@ VD2 == ClampedDirs({1, 2}, <<Half>>, 1)
 VolSet == IF VolMode = 0 THEN {} ELSE
   {s \in Volumes(VD2, VD2, IF VolMode = 1 THEN VD1 ELSE VD2, BOOLEAN, Seed) :
       DiffSizes(s) /\ (VolMode > 1 \/ (s.deg[1] = 1 /\ s.deg[2] = 2) \/ (s.deg[1] = 2 /\ s.deg[2] = 1 /\ ~s.rat))}
-MCShapes == CurveSet \cup SurfSet \cup VolSet
-DepthOf(s) == IF PDim(s) = 1 THEN DepthCurve ELSE 1
-DensSet(s) == LET m == IF PDim(s) = 1 THEN MaxDens ELSE IF PDim(s) = 2 THEN IMin(MaxDens, 2) ELSE 1 IN
+\* non-normalised knot vectors: ranges [0,2], [0,4] (refined knots exactly 1.0 apart), and different ranges per direction
+RawCurves == Curves({<<p, AffineKV(MkClamped(p, <<Half>>, <<k>>), RI(a), RI(0))>> : p \in {2, 3}, k \in {0, 1}, a \in {2, 4}}, {2}, BOOLEAN, Seed)
+RawSurf == Surfaces({<<2, AffineKV(MkClamped(2, <<Half>>, <<0>>), RI(4), RI(0))>>}, {<<1, AffineKV(MkClamped(1, <<Half>>, <<1>>), RI(2), RI(-1))>>}, {3}, {TRUE}, Seed)
+RawSet == IF SurfMode = 0 THEN {} ELSE RawCurves \cup RawSurf
+MCShapes == CurveSet \cup SurfSet \cup VolSet \cup RawSet
+DepthOf(s) == IF PDim(s) = 1 /\ Last(s.kv[1]) = One THEN DepthCurve ELSE 1     \* raw knot ranges: one call (32-bit integers)
+\* density 3 (8 pieces per interval) on curves with at most one interior knot
+DensSet(s) == LET m == IF PDim(s) = 1 THEN (IF s.deg[1] <= 2 /\ s.size[1] <= s.deg[1] + 2 THEN IMax(MaxDens, 3) ELSE MaxDens) ELSE IF PDim(s) = 2 THEN IMin(MaxDens, 2) ELSE 1 IN
   IF PDim(s) = 1 THEN {<<a>> : a \in 1..m}
   ELSE IF PDim(s) = 2 THEN {<<a, b>> \in (0..m) \X (0..m) : a + b > 0}
   ELSE {<<a, b, c>> \in (0..m) \X (0..m) \X (0..m) : a + b + c > 0}
@@ -26,7 +31,7 @@ HelperAdds == {<<>>, <<R(1,3)>>}
 Next == /\ Len(hist) < DepthOf(sh0)
         /\ (hist # <<>> => hist[1].a = "refine")      \* nothing follows a helper call (thirds): keeps denominators small
         /\ \/ \E dens \in (IF hist = <<>> THEN DensSet(obj) ELSE {<<1>>}) : ARefine(dens)
-           \/ hist = <<>> /\ \E kl \in HelperLists, add \in HelperAdds, dens \in 1..2 : ARefineHelper(kl, add, dens)
+           \/ hist = <<>> /\ Last(obj.kv[1]) = One /\ \E kl \in HelperLists, add \in HelperAdds, dens \in 1..2 : ARefineHelper(kl, add, dens)
 Spec == Init /\ [][Next]_vars
 
 LastStep == hist'[Len(hist')]
